@@ -256,7 +256,7 @@ theorem blockVisit_spec (ok) (cfg : Config) (hcfg : CfgOk ok cfg) (opFuel : Nat)
         simp only [if_true, Bool.and_eq_true, beq_iff_eq] at hg
         rw [blockVisit_block cfg opFuel f ss sp s hs]
         have hs0 : StOk (resetProvider s) := hs
-        have t0 : TS (resetProvider s) s := ⟨rfl, rfl⟩
+        have t0 : TS (resetProvider s) s := ⟨rfl, rfl, id⟩
         obtain ⟨ks', h1, hl, g, e, p⟩ := mapKids_spec' ok (visit cfg opFuel true)
           (fun k s h0 ht hs => visit_spec ok cfg hcfg opFuel true k s h0 ht hs) (.block ss sp) (resetProvider s)
           (by simp [hg.1]) ((bad_zero_iff _).mp (by simp [hg.2])) hs0
